@@ -44,6 +44,13 @@ ExpUpper(tr) ==
 \* deviations recorded as known findings (DESIGN.md 7.3) -----------------------
 \* C12_K1: the 365/366-day calendar branch of getTimes
 NonStdCal(tr) == tr.kind = "cf" /\ CalOf(tr.cal) # "std"
+\* ... is right only for whole days counted from a Jan-1 00:00:00 UTC reference in
+\* days, hours or minutes; everything else in that branch is the finding
+K1Applies(tr, i) ==
+  /\ NonStdCal(tr)
+  /\ ~(/\ tr.ref[2] = 1 /\ tr.ref[3] = 1 /\ tr.ref[4] = 0 /\ tr.ref[5] = 0 /\ tr.ref[6] = 0
+        /\ tr.tzm = 0 /\ tr.unit # "seconds"
+        /\ LET e == Expected(tr, i) IN e[4] = 0 /\ e[5] = 0 /\ e[6] = 0 /\ e[7] = 0)
 
 TStep ==
   LET tr == Traces[tid] IN
@@ -53,7 +60,7 @@ TStep ==
        /\ ChkT(tr, 1, "number of decoded times", Len(tr.got) = NExpected(tr))
        /\ \A i \in 1..NExpected(tr) :
             Showable(Expected(tr, i)) =>
-              (IF NonStdCal(tr) /\ tr.got[i] # Expected(tr, i)
+              (IF K1Applies(tr, i) /\ tr.got[i] # Expected(tr, i)
                THEN TrKnown(tr, "C12_K1_nonstandard_calendar")
                ELSE Chk(tr, i, "decoded instant " \o ToString(i) \o " (" \o tr.kind \o ")", tr.got[i], Expected(tr, i)))
        \* bounds=True : n+1 edges, the last one step after the last instant
